@@ -1,6 +1,6 @@
 """Engine: whole programs through the real `wire` binary, the Go compiler and the tracing runtime, vs the
 Coq pipeline model (Emit.generate1); property oracles on the implementation's observable behaviour."""
-import random
+import random, re
 from common import *
 import synth, spec, prog, gencase, traceoracle
 
@@ -143,6 +143,24 @@ def eng_prog(pid, tier, wd, known, replay=None):
         keep = [i for i, o in enumerate(obs) if "invalid_go" not in o]
         stats["invalid_go_renderings_dropped"] = stats.get("invalid_go_renderings_dropped", 0) + len(obs) - len(keep)
         chunk = [chunk[i] for i in keep]; renders = [renders[i] for i in keep]; obs = [obs[i] for i in keep]
+        if pid == "C19":
+            # `wire check ./...` next to `wire gen ./...`: the same packages must fail
+            tools = build_tools()
+            for k2 in range(len(obs)):
+                g2 = os.path.join(root, "c%d" % keep[k2], "app", "wire_gen.go")
+                if os.path.exists(g2):
+                    os.remove(g2)
+            cp = sh([tools["wire"], "check", "./..."], cwd=root, env=GOENV, timeout=900)
+            chk_bad = set(int(x) for x in re.findall(r"/c(\d+)/", cp.stderr))
+            gen_bad = {keep[k2] for k2, o in enumerate(obs) if not o["generated"]}
+            stats["check_vs_gen"] = {"gen_rejects": len(gen_bad), "check_rejects": len(chk_bad)}
+            for i2 in sorted(chk_bad ^ gen_bad)[:5]:
+                if i2 in keep:
+                    j2 = keep.index(i2)
+                    viol.append(({"property": pid, "kind": "failing-input", "broken": "C19 oracle: check vs gen on a generated program",
+                                  "input": {"prog": chunk[j2]}, "rendered_files": renders[j2].files(),
+                                  "impl": {"gen_errors": obs[j2]["errors"], "check_says_bad": i2 in chk_bad},
+                                  "oracle": ["wire check %s this package, wire gen %s it" % ("rejects" if i2 in chk_bad else "accepts", "rejects" if i2 in gen_bad else "accepts")], "seed": seed()}, True))
         mism, kinds = gencase.run_gcases(chunk, renders, obs, wd, "p%d" % b0)
         mism_total += len(mism)
         for i, (p, r, o) in enumerate(zip(chunk, renders, obs)):
